@@ -70,16 +70,20 @@ def cmd_run(sid, in_repo=False, tier='quick', props=None):
                 results[p] = {'rc': rc, 'lines': [l for l in out.split('\n') if l.startswith(('VIOLATION', 'KNOWN-FINDING', p))][:12]}
         finally:
             sh('git -C /repo checkout -- .')
+            sh('git -C %s checkout -- lean/BctVerif/Gen' % V)
     else:
         w = worktree()
         try:
             rc, out = sh('git apply %s/patch.diff' % d, cwd=w); assert rc == 0, out
-            env = dict(os.environ, BCT_REPO=w, BCT_EVIDENCE='/tmp/bct_seed_evidence')
+            # private copy of the lake project: checks regenerate lean/BctVerif/Gen/*.lean from the (patched) source
+            lean = w + '_lean'
+            sh('rm -rf %s && cp -r %s %s' % (lean, os.path.join(V, 'lean'), lean))
+            env = dict(os.environ, BCT_REPO=w, BCT_LEAN=lean, BCT_EVIDENCE='/tmp/bct_seed_evidence')
             for p in props:
                 rc, out = sh('timeout 3000 ./check %s --tier %s' % (p, tier), cwd=V, env=env)
                 results[p] = {'rc': rc, 'lines': [l for l in out.split('\n') if l.startswith(('VIOLATION', 'KNOWN-FINDING', p))][:12]}
         finally:
-            drop(w)
+            drop(w); shutil.rmtree(w + '_lean', ignore_errors=True)
     caught = any(r['rc'] == 1 for r in results.values())
     json.dump({'mode': 'in-repo' if in_repo else 'scratch-worktree', 'tier': tier, 'caught': caught, 'checks': results},
               open(os.path.join(d, 'result_%s.json' % tier), 'w'), indent=1)
